@@ -90,7 +90,7 @@ def analyse(task):
            'solver_time': 0.0, 'paths': 0, 'nontrivial': 0, 'controls': {}}
     budget = TASK_BUDGET or (90.0 if __import__('os').environ.get('VERIF_TIER_EFFECTIVE', 'quick') == 'quick' else 600.0)
     _deadline[0] = time.time() + budget
-    E = S.Engine(max_paths=64, timeout=8)
+    E = S.Engine(max_paths=16, timeout=6)
     numerics = None
     if task.get('num'):
         numerics = (I.with_numerics(*task['num']), [], [])
@@ -117,9 +117,35 @@ def analyse(task):
     try:
         paths = E.explore(body)
     except S.Inconclusive as ex:
-        # exploration budget exhausted (the code forks on symbolic quotas more than the budget allows): what was
-        # explored is still analysed, the rest is inconclusive
+        # exploration budget exhausted: the code under test forks on symbolic quotas (e.g. it tests a coefficient
+        # against zero) more often than the budget allows.  What was explored is still analysed; the task is then
+        # repeated with a few CONCRETE well-formed quota vectors (the fallback announced in DESIGN 3.1), which decide
+        # it for those vectors only - recorded as 'degraded_to_concrete'
         paths = getattr(ex, 'paths', [])
+        if numerics is None and not task.get('_degraded'):
+            import random as _random
+            rng = _random.Random(hash(str(task['shape'])) & 0xffff)
+            for trial in range(3):
+                hi = [0, 1, 2, 3][trial] if trial < 3 else 2
+                plq = [rng.choice([0, 0, 1]) for _ in range(I.np)]
+                puq = [max(q, rng.choice([0, 1, 2, hi + 1])) for q in plq]
+                if I.na == 3:
+                    llq = [rng.choice([0, 0, 1]) for _ in range(I.nl)]
+                    lt = [max(q, rng.choice([0, 1, 2])) for q in llq]
+                    luq = [max(q, rng.choice([1, 2, 3])) for q in lt]
+                else:
+                    llq, lt, luq = list(plq), list(puq), list(puq)
+                seq_c = [(c_, [a_ if isinstance(a_, int) else rng.choice([0, 1, 2]) for a_ in args_]) for c_, args_ in task['seq']]
+                saved = (_deadline[0], _symseq[0])
+                r2 = analyse(dict(task, num=[plq, puq, llq, lt, luq], seq=seq_c, symmult=False, negctl=False, cvc5=False, _degraded=True))
+                _deadline[0], _symseq[0] = saved
+                for k_ in ('obligations', 'discharged', 'unknown', 'queries', 'solver_time'):
+                    res[k_] += r2[k_]
+                res['cex'].extend(r2['cex'])
+            res['controls']['degraded_to_concrete'] = res['controls'].get('degraded_to_concrete', 0) + 1
+            res['nontrivial'] = 1
+            res['sample'] = {'shape': task['shape'], 'flags': sorted(flags), 'seq': task['seq'], 'forms': forms, 'degraded_to_concrete': True}
+            return res
         res['obligations'] += 1
         res['unknown'] += 1
     res['paths'] = len(paths)
